@@ -707,6 +707,29 @@ static Verdict run_xml(const Case &c) {
   CHK(same(o, s, "xml_decode(xml_encode(s))"));
   CHK(untouched(o, s.size(), r.fill, "xml_decode"));
   CHK(guards(o, "xml_decode"));
+  // the result needs |s| bytes: a buffer of exactly that size is sufficient, one byte less is refused without touching the guards
+  r.op = C14_XML_DEC; r.in = S2B(enc); r.cap = (uint32_t)s.size();
+  o = call(r);
+  REQ(o.rc == 0, "xml_decode(xml_encode(s)) into exactly |s| = " << s.size() << " bytes: rc=" << o.rc << " on " << show(enc));
+  REQ(o.size_ret_set && o.size_ret == s.size(), "xml_decode(" << show(enc) << ", cap=|s|): size " << o.size_ret << " != " << s.size());
+  CHK(same(o, s, "xml_decode(xml_encode(s), cap=|s|)"));
+  CHK(guards(o, "xml_decode(cap=|s|)"));
+  if (!s.empty()) {
+    r.cap = (uint32_t)s.size() - 1;
+    o = call(r);
+    REQ(o.rc != 0, "xml_decode(" << show(enc) << ") into |s|-1 bytes reports success");
+    CHK(guards(o, "xml_decode(cap=|s|-1)"));
+    label("xml_short_buffers_refused");
+  }
+  if (specials) {
+    for (uint32_t less = 1; less <= 5 && less <= enc.size(); less++) {
+      r.op = C14_XML_ENC; r.in = s; r.cap = (uint32_t)enc.size() - less;
+      o = call(r);
+      REQ(o.rc != 0, "xml_encode(" << show(s) << ") into " << r.cap << " bytes reports success, " << enc.size() << " are needed");
+      CHK(guards(o, "xml_encode(short buffer)"));
+    }
+  }
+  r.op = C14_XML_DEC; r.in = S2B(enc);
   // probe (not asserted for rc): buffer of the input's size -- a success must still carry the right value
   if (!enc.empty()) {
     r.cap = (uint32_t)enc.size();
